@@ -5,6 +5,7 @@ import SlotVerif.Driver.ParseDrv
 import SlotVerif.Driver.GroupDrv
 import SlotVerif.Driver.EgDrv
 import SlotVerif.Driver.ProgDrv
+import SlotVerif.Driver.SnapDrv
 /-! `svdriver`: reads one case per line `<suite> <body>`, prints one answer line per case. -/
 open SV.Drv
 
@@ -21,6 +22,7 @@ def dispatch (line : String) : String :=
     | "grp" => grpRun body
     | "eg" => egRun body
     | "prog" => progRun body
+    | "snap" => snapRun body
     | _ => "bad-suite"
   | [] => "bad-line"
 
